@@ -119,6 +119,13 @@ def att_case(draw, tier="quick"):
     n = draw(gen.length(25, min_n=1))
     x = draw(gen.present_series(n, gen.dyadic(3, -16, 16), gen.dyadic(3, -2, 2)))
     t, ds = draw(gen.time_axis(n, steps=[30, 60, 60, 120, 600, 3600]))
+    subsec = draw(st.integers(0, 3)) == 0
+    if subsec:
+        # sub-second sampling instants (multiples of 1/8 s): the trailing window is formed on the exact instants.
+        # (min_period is not combined with them: the code measures the sampling step in whole seconds, and the
+        # statement does not say how a fractional step is to be rounded)
+        t = [v + draw(st.sampled_from([0.0, 0.125, 0.5, 0.875])) for v in t]
+        t = [int(v) if float(v) == int(v) else v for v in t]
     x = draw(gen.overlay_missing(x))
     check = draw(st.sampled_from(["std", "range"]))
     mode = draw(st.sampled_from(["none", "period", "period", "min_obs", "min_obs", "min_period"]))
@@ -132,7 +139,7 @@ def att_case(draw, tier="quick"):
         P = draw(st.one_of(*ch))
         if mode == "min_obs":
             mo = draw(st.integers(1, 6))
-        elif mode == "min_period" and n >= 2:
+        elif mode == "min_period" and n >= 2 and not subsec:
             mp = draw(st.one_of(st.sampled_from([30, 60, 90, 120, 240, 600]), st.integers(1, 4000)))
     base = {"x": x, "t": t, "check": check, "period": P, "min_obs": mo, "min_period": mp, "suspect": 1.0, "fail": 0.5}
     _, spreads, _ = model_att(base)
@@ -176,6 +183,8 @@ def check_att(case, rec):
     for fl, nm in ((G, "some_good"), (S, "some_suspect"), (F, "some_fail"), (U, "some_unknown")):
         if any(a == {fl} for a in allowed):
             labels.append(nm)
+    if any(float(v) != int(v) for v in t):
+        labels.append("subsecond_times")
     rec.note(any(meta.values()) or f > s, labels)
     kw = {"suspect_threshold": s, "fail_threshold": f, "check_type": kind}
     if case["period"] is not None:
@@ -184,7 +193,9 @@ def check_att(case, rec):
         kw["min_obs"] = case["min_obs"]
     if case["min_period"] is not None:
         kw["min_period"] = case["min_period"]
-    tt = np.array(t, dtype="int64") if case.get("tc") == "epoch" else tarr(t)
+    from ..streamgen import np_time
+    frac = any(float(v) != int(v) for v in t)
+    tt = np.array(t, dtype="float64" if frac else "int64") if case.get("tc") == "epoch" else np_time(t)
     site = "qartod.attenuated_signal_test"
     got = flags(rec, site, rec.call(site, _att(), carr(case, x), tt, **kw), n, check=kind)
     if got is SKIP:
